@@ -27,6 +27,8 @@ def l2_part(run, exe_unused, results, env):
     l2lib.random_runs(run, exer, "Counter", ccfgs, 2000 if run.tier == "quick" else 50000, "C13", {"O-mem"})
     l2lib.random_runs(run, exer, "Note", ncf, 2000 if run.tier == "quick" else 50000, "C13", {"O-mem"})
 
+    l2lib.generated_notes(run, "C13", {"O-mem"})
+
 
 def main(tier, replay=None):
     return mu_check("C13", tier, replay, post=l2_part,
